@@ -18,7 +18,11 @@ RULE = ("random grids (2..16 cells per direction, thorough to 40; uniform / "
         "(cycle, sslsolver, semicoarsening, linerelaxation, nu's, clevel, tol, "
         "maxit, plain, return_info, verb, supplied field kinds); distinct = "
         "(cycle, sslsolver, sc-class, lr-class, supplied?, exit class, dtype) "
-        "tuples that reached the residual oracle")
+        "tuples that reached the residual oracle; plus Simulations "
+        "(gridding same, tol 1e-5..1e-7, tol_gradient 1e-2/1e-3/unset, in "
+        "memory or file based) under random histories of compute / misfit / "
+        "gradient / jvec / clean: every stored forward field reported "
+        "converged against the requested forward tolerance")
 ASSUMPTIONS = [
     "vf/refop.py is the discretisation the property refers to (C02 ties it to "
     "the kernel and to discretize)",
@@ -36,11 +40,13 @@ SIZES_T = SIZES_Q + [14, 16, 20, 24, 32, 40]
 def plan(tier, seed):
     if tier == 'quick':
         nb, per = 48, 64           # 3072 solves
-        return [{'id': f'q{k}', 'k': k, 'n': per} for k in range(nb)]
+        return [{'id': f'q{k}', 'k': k, 'n': per} for k in range(nb)] + \
+            [{'id': f's{k}', 'k': k, 'n': 6, 'mode': 'sim'} for k in range(8)]
     nb, per = 192, 260             # ~50k solves
     out = [{'id': f't{k}', 'k': k, 'n': per} for k in range(nb)]
     out += [{'id': f'bc{k}', 'k': 10000+k, 'n': 100, 'boundscheck': True}
             for k in range(32)]
+    out += [{'id': f's{k}', 'k': k, 'n': 20, 'mode': 'sim'} for k in range(32)]
     return out
 
 
@@ -442,6 +448,112 @@ def run_case(rec, seed, k, i, tier):
     _ = solver
 
 
+def run_sim_case(rec, seed, k, i, tier):
+    """The same implication where a Simulation drives the solver: every
+    forward field a Simulation holds with status 'converged' satisfies the
+    system to the forward tolerance the user asked for - at any point of a
+    history of compute / gradient / jvec / clean calls on that object."""
+    import warnings
+    import emg3d
+    from vf import simgen
+    warnings.simplefilter('ignore')
+    r = gen.rng(seed, 'C01', 'sim', k, i)
+    ps = simgen.problem_spec(r, nan_frac=0.0)
+    ms, gs = ps['ms'], ps['gs']
+    tol = float(gen.choice(r, [1e-5, 1e-6, 1e-7]))
+    so = {'tol': tol, 'maxit': 60}
+    if r.random() < 0.7:
+        so['tol_gradient'] = float(gen.choice(r, [1e-2, 1e-3]))
+    if r.random() < 0.5:
+        so.update(sslsolver=False, semicoarsening=False,
+                  linerelaxation=False)
+    obs = simgen.observed_from(ps, r, tol=1e-6)
+    grid, model = simgen.build_model(ps)
+    sv = simgen.build_survey(ps, data=obs.copy())
+    kw = {}
+    tmpd = None
+    if r.random() < 0.2:
+        import tempfile
+        tmpd = tempfile.mkdtemp(prefix='vf-c01-')
+        kw['file_dir'] = tmpd
+    sim = simgen.simulation(sv, model, solver_opts=so, **kw)
+    steps = [gen.choice(r, ['compute', 'gradient', 'misfit', 'jvec', 'clean',
+                            'gradient', 'clean'])
+             for _ in range(int(r.integers(3, 7)))] + ['clean', 'compute']
+    case = {'mode': 'sim', 'seed': seed, 'k': k, 'i': i, 'tol': tol,
+            'solver_opts': so, 'steps': steps, 'file_based': tmpd is not None,
+            'problem': simgen.summarize(ps)}
+    refs = {}
+    rec.case()
+    done = []
+    try:
+        for st in steps:
+            if st == 'compute':
+                sim.compute()
+            elif st == 'gradient':
+                _ = sim.gradient
+            elif st == 'misfit':
+                _ = sim.misfit
+            elif st == 'jvec':
+                v = r.standard_normal(sim.model.shape)
+                if ms['case'] != 'isotropic':
+                    n_ = {'HTI': 2, 'VTI': 2, 'triaxial': 3}[ms['case']]
+                    v = r.standard_normal((n_, *sim.model.shape))
+                try:
+                    sim.jvec(v)
+                except Exception:  # noqa - not the subject here
+                    rec.event('sim_jvec_raised')
+            elif st == 'clean':
+                sim.clean('computed')
+            done.append(st)
+            rec.event('sim_history_steps')
+            # ---- at every quiescent point: all stored forward fields
+            for src, fname in sim._srcfreq:
+                ef = sim._dict_efield[src][fname]
+                if ef is None:
+                    continue
+                if isinstance(ef, str):
+                    ef = sim.get_efield(src, fname)
+                info = sim.get_efield_info(src, fname)
+                freq = float(sim.survey.frequencies[fname])
+                if freq not in refs:
+                    refs[freq] = gen.build_refop(gs, ms, freq)
+                ref = refs[freq]
+                sf = emg3d.fields.get_source_field(
+                    sim.model.grid, sim.survey.sources[src], freq)
+                svec = np.array(sf.field)
+                e = np.array(ef.field)
+                if np.count_nonzero(svec[~ref.interior]):
+                    rec.event('skipped_source_on_boundary')
+                    continue
+                res = (svec - ref.A @ e)[ref.interior]
+                true = float(np.linalg.norm(res))
+                refnorm = float(np.linalg.norm(svec))
+                floor = 50*np.finfo(float).eps*float(np.linalg.norm(
+                    abs(ref.A) @ np.abs(e) + np.abs(svec)))
+                if info['exit'] == 0:
+                    rec.event('sim_success_residual_checks')
+                    rec.margin('sim_success_true_over_tol',
+                               true/(tol*refnorm))
+                    if not (true <= tol*refnorm*(1+1e-6) + floor):
+                        rec.violation(
+                            'C01:simulation-forward-field-above-requested-tol',
+                            f'after {done}: forward field of ({src}, {fname})'
+                            f' is reported converged (exit 0, '
+                            f'{info["exit_message"]!r}) but its independent '
+                            f'residual is {true/refnorm:.3e} of the source '
+                            f'norm; requested forward tol {tol:.1e}', case)
+                        return
+                else:
+                    rec.event('sim_failure_reports')
+        rec.distinct(('sim', tuple(sorted(set(steps))), 'tol_gradient' in so,
+                      so.get('sslsolver', True), tmpd is not None))
+    finally:
+        if tmpd:
+            import shutil
+            shutil.rmtree(tmpd, ignore_errors=True)
+
+
 def run_batch(batch):
     rec = common.Rec(max_viol=12)
     only = batch.get('only')
@@ -449,6 +561,9 @@ def run_batch(batch):
         if only is not None and i != only:
             continue
         try:
+            if batch.get('mode') == 'sim':
+                run_sim_case(rec, batch['seed'], batch['k'], i, batch['tier'])
+                continue
             run_case(rec, batch['seed'], batch['k'], i, batch['tier'])
         except IndexError:
             raise
@@ -464,4 +579,5 @@ def finalize(merged, tier):
     common.require_events(merged, {
         'solve_calls': 1000, 'success_residual_checks': 300,
         'failure_reports': 100, 'info_abs_error_checks': 100,
-        'zero_source_checks': 20, 'pec_checks': 1000})
+        'zero_source_checks': 20, 'pec_checks': 1000,
+        'sim_success_residual_checks': 100})
